@@ -26,3 +26,12 @@ Definition chk_regsec (I : Qc) (nr ns : nat) (wr ws : option (list (option Qc)))
   | COk v, None => match from_series v with CErr _ => 0%nat | COk _ => 3%nat end
   | CErr _, Some _ => 3%nat
   end.
+
+(* rec.curves : the rational built-in recovery curves vs the Python functions *)
+Definition chk_curve (which tau e : nat) (init impl : vec) : nat :=
+  let m := match which with
+           | 0%nat => linear_rec tau e init
+           | 1%nat => convexe_rec tau e init
+           | _ => convexe_scaled_rec tau e init
+           end in
+  vcmp (length init) (fun j => qabs (getv init j)) m impl.
